@@ -526,6 +526,37 @@ def _world(rng, tier, index, res, tr, ch):
                 viol("consume-jws:rejected-resolvable", "token of a key of the imported foreign set (thumbprint kid) rejected: %s: %s" % (type(e).__name__, e),
                      {"op": "foreign-jwks", "doc": doc})
 
+    def shared_secret_jwks():
+        """two parties import the same JWKS of symmetric keys (no kids in it) independently: each names the keys alike, so what one
+        produces without a kid the other resolves"""
+        n = erng.randrange(2, 5)
+        secrets_ = [K.make_oct(erng.sub("shared%d-%d" % (sim.events, i)), erng.pick([16, 32, 48])) for i in range(n)]
+        doc = {"keys": [rk.to_jwk(k, True) for k in secrets_]}
+        res.fired("shared-secret-jwks-without-kid")
+        res.case(index, sim.events, "shared-secret-jwks")
+        repro = {"op": "shared-secret-jwks", "doc": doc}
+        try:
+            a = KeySet.import_key_set(copy.deepcopy(doc))
+            b = KeySet.import_key_set(copy.deepcopy(doc))
+        except Exception as e:
+            viol("import:refused-foreign-set", "import_key_set refused a JWKS of symmetric keys without kids: %s: %s" % (type(e).__name__, e), repro)
+            return
+        ka, kb = [k.kid for k in a.keys], [k.kid for k in b.keys]
+        if ka != kb or any(x is None for x in ka):
+            viol("import:kids-differ-between-imports", "two imports of one JWKS name its keys %r and %r" % (ka, kb), repro)
+            return
+        for forced in range(n):
+            ch.force = forced
+            try:
+                tok = jws.serialize_compact({"alg": "HS256"}, b"shared", a, algorithms=ALLJWS)
+                got = jws.deserialize_compact(tok, b, algorithms=ALLJWS).payload
+            except Exception as e:
+                got = "%s: %s" % (type(e).__name__, e)
+            ch.force = None
+            if got != b"shared":
+                viol("consume-jws:rejected-resolvable", "a token one party made with key %d of the shared set is not resolved by the other party's import: %r" % (forced, got), repro)
+                return
+
     # ---------------- JWE: peer encrypts to the fetched public set, owner decrypts ----------------
     def mint_jwe(liveness=False):
         peer = erng.pick(peers)
@@ -643,6 +674,7 @@ def _world(rng, tier, index, res, tr, ch):
             sim.at(sim.now + t, foreign_jwks, "foreign-jwks")
         elif r < 0.53:
             sim.at(sim.now + t, generated_set, "generated-set")
+            sim.at(sim.now + t + 0.5, shared_secret_jwks, "shared-secret-jwks")
         elif r < 0.58:
             sim.at(sim.now + t, mint_jwe_multi, "mint-jwe-multi")
         elif r < 0.76:
@@ -725,6 +757,19 @@ def replay(repro: dict):
                     out.append(("consume-jwe:wrong-error-for-unknown-kid", type(exc).__name__))
             elif outcome != "ok":
                 out.append(("consume-jwe:rejected-resolvable", "%s: %s" % (type(exc).__name__, exc)))
+        elif op == "shared-secret-jwks":
+            a = KeySet.import_key_set(copy.deepcopy(repro["doc"]))
+            b = KeySet.import_key_set(copy.deepcopy(repro["doc"]))
+            if [k.kid for k in a.keys] != [k.kid for k in b.keys]:
+                out.append(("import:kids-differ-between-imports", "%r / %r" % ([k.kid for k in a.keys], [k.kid for k in b.keys])))
+            else:
+                for _ in range(12):
+                    try:
+                        tok = jws.serialize_compact({"alg": "HS256"}, b"shared", a, algorithms=ALLJWS)
+                        jws.deserialize_compact(tok, b, algorithms=ALLJWS)
+                    except Exception as e:
+                        out.append(("consume-jws:rejected-resolvable", "%s: %s" % (type(e).__name__, e)))
+                        break
         elif op == "generated-set":
             for params in (repro.get("params"), {"use": "sig"}):
                 gs = KeySet.generate_key_set("EC", "P-256", copy.deepcopy(params), True, 3)
